@@ -379,7 +379,9 @@ class Verdict:
               "assumptions": self.assumptions, "wall_s": round(time.time() - self.t0, 1), "violations": len(self.violations),
               "repo": REPO, "known_findings_hit": sorted(self.known_hits.keys()),
               "notes_other_properties": sorted({f["prop"] for f in self.notes})}
-        json.dump(ev, open(os.path.join(VERIF, "evidence", self.prop + ".json"), "w"), indent=1)
+        evdir = os.path.join(VERIF, "evidence") if REPO == "/repo" else os.path.join(WORK, "evidence-" + hashlib.sha256(REPO.encode()).hexdigest()[:8])
+        os.makedirs(evdir, exist_ok=True)
+        json.dump(ev, open(os.path.join(evdir, self.prop + ".json"), "w"), indent=1)
         return rc
 
 
@@ -478,7 +480,7 @@ def run_traces(binary, specs, tag, record_timeout=90, tlc_timeout=3600):
         if rc != 0:
             raise ToolError("trace recorder failed (rc=%s): %s" % (rc, out[-2000:]))
         meta = os.path.join(d, "meta-%02d" % i)
-        vjobs.append((i, tlc_cmd("Trace.tla", os.path.join(SPEC, "Trace.cfg"), 1, meta), SPEC,
+        vjobs.append((i, tlc_cmd("Trace.tla", os.path.join(SPEC, s.get("cfg", "Trace") + ".cfg"), 1, meta), SPEC,
                       {"TRACE": s["file"], "JAVA_TOOL_OPTIONS": "-Xmx3g -Xss512m -XX:ActiveProcessorCount=2"}, tlc_timeout))
     # C06 on the call history alone (ChurnMonitor.tla) for the generation-counter boundary runs
     for i, s in enumerate(specs):
